@@ -85,6 +85,7 @@ theorem step_failBind_mem (s : Sys F) (e : Ev) (a : Nat) (h : a ∈ (step s e).1
     rcases List.mem_cons.1 h' with e | e
     · right; rw [e]
     · left; exact e
+  | stamp idx weak ld ccb cct => left; exact h
 
 /-! ## 2. Conn ids stay where they are -/
 
@@ -320,5 +321,6 @@ theorem step_reg_idle (s : Sys F) (e : Ev) (h : RegIdle s.reg)
   | crit d => exact h
   | failNext cid => exact h
   | failBind cid => exact h
+  | stamp idx weak ld ccb cct => exact h
 
 end Srtla.Hk
